@@ -20,6 +20,16 @@ def nontrivial(req, obs):
     return obs.count("=i") + obs.count("=n") >= 2 and "S[]" not in obs
 
 
+def _res_items(req):
+    f = req.split("\t")
+    out = []
+    for it in (f[4].split(";") if len(f) > 4 and f[4] else []):
+        p = it.split(":")
+        if len(p) >= 7:
+            out.append(p)
+    return out
+
+
 def finding_key(req, obs, detail):
     """(target, failure class, name class): the name class says *why* a name was not kept"""
     f = req.split("\t")
@@ -33,8 +43,18 @@ def finding_key(req, obs, detail):
         name = nm.group(1) if nm else ""
         reserved = _reserved("msl/src/names.rs" if tgt == "msl" else "hlsl/src/names.rs")
         return f"{tgt} {cls} {'reserved-name' if name in reserved else 'other-name'}"
-    if cls in ("unsized-array-unbound", "static-object-bound"):
+    if cls in ("unsized-array-unbound", "static-object-bound", "nested-array-unbound", "struct-resource-unbound",
+               "numthreads-ambiguous"):
         return f"{tgt} {cls}"
+    if cls == "entry-name-ambiguous" and tgt != "msl":
+        # a cbuffer block keeps its source name on HLSL; a global whose name is reserved is renamed `<name>_<n>`:
+        # a cbuffer called exactly that collides with it
+        res = _res_items(req)
+        reserved = _reserved("hlsl/src/names.rs")
+        for p in res:
+            mm = re.match(r"^(.*)_\d+$", p[0])
+            if p[1] == "cbuffer" and mm and any(q[1] != "cbuffer" and q[0] == mm.group(1) and q[0] in reserved for q in res):
+                return f"{tgt} {cls} cbuffer-name-equals-generated-name"
     return f"{tgt} {cls} {req}"
 
 
@@ -42,42 +62,104 @@ def _items(s):
     return s.split(";") if s else []
 
 
-def _drop_index(lst, k):
+def _uses(s):
+    """'3w,4' -> [(3, 'w'), (4, '')]"""
+    out = []
+    for x in (s.split(",") if s else []):
+        if x and not x[-1].isdigit():
+            out.append((int(x[:-1]), x[-1]))
+        else:
+            out.append((int(x), ""))
+    return out
+
+
+def _drop(lst, k, shaped=False):
     """remove index k from a comma separated index list and renumber the larger ones"""
     out = []
-    for x in (lst.split(",") if lst else []):
-        x = int(x)
+    for x, sh in _uses(lst):
         if x == k:
             continue
-        out.append(str(x - 1 if x > k else x))
+        out.append(str(x - 1 if x > k else x) + (sh if shaped else ""))
     return ",".join(out)
+
+
+def _plain(lst):
+    """forget the statement shapes of a use list"""
+    return ",".join(str(x) for x, _ in _uses(lst))
+
+
+def _map_opts(item, n, fn):
+    """apply fn to every option of the optional (n+1)-th ':' field; options for which fn returns None are dropped"""
+    p = item.split(":")
+    if len(p) <= n:
+        return item
+    opts = [o for o in (fn(o) for o in p[n].split("+")) if o]
+    return ":".join(p[:n] + (["+".join(opts)] if opts else []))
 
 
 def shrink(req):
     f = req.split("\t")
     if len(f) != 8:
         return
-    head, (ns, rs, hs, es, ps) = f[:3], f[3:]
-    R, H, E, P = _items(rs), _items(hs), _items(es), _items(ps)
+    head, (gs, rs, hs, es, ps) = f[:3], f[3:]
+    G, R, H, E, P = gs.split(";"), _items(rs), _items(hs), _items(es), _items(ps)
+
+    def emit(G=G, R=R, H=H, E=E, P=P):
+        return "\t".join(head + [";".join(G), ";".join(R), ";".join(H), ";".join(E), ";".join(P)])
+
     # drop a pipeline that is not the named one
     for i in range(len(P)):
         if len(P) > 1 and not (head[2].startswith("name=") and P[i].split(":")[0] == head[2][5:]):
-            yield "\t".join(head + [ns, rs, hs, es, ";".join(P[:i] + P[i + 1:])])
+            yield emit(P=P[:i] + P[i + 1:])
     # drop a resource
     for k in range(len(R)):
-        H2 = [":".join([h.split(":")[0], _drop_index(h.split(":")[1], k)] + h.split(":")[2:]) for h in H]
-        E2 = [":".join(e.split(":")[:2] + [_drop_index(e.split(":")[2], k)] + e.split(":")[3:]) for e in E]
-        yield "\t".join(head + [ns, ";".join(R[:k] + R[k + 1:]), ";".join(H2), ";".join(E2), ps])
-    # drop the last helper (nothing later can call it except entries)
+        def fix(item, pos, opt_letter):
+            p = item.split(":")
+            p[pos] = _drop(p[pos], k, shaped=True)
+            item = ":".join(p)
+            return _map_opts(item, 4 if opt_letter == "d" else 6,
+                             lambda o: ((opt_letter + _drop(o[1:], k)) if _drop(o[1:], k) else None)
+                             if o.startswith(opt_letter) and o[1:2].isdigit() else o)
+        H2 = [fix(h, 1, "d") for h in H]
+        E2 = [":".join(e.split(":")[:2] + [_drop(e.split(":")[2], k, shaped=True)] + e.split(":")[3:]) for e in E]
+        G2 = [g if not g.startswith("I") else "I" + ":".join([_drop(g[1:].split(":")[0], k)] + g[1:].split(":")[1:]) for g in G]
+        yield emit(G=G2, R=R[:k] + R[k + 1:], H=H2, E=E2)
+    # drop the last helper (nothing later can call it except entries and global initialisers)
     if H:
         k = len(H) - 1
-        E2 = [":".join(e.split(":")[:3] + [_drop_index(e.split(":")[3], k)] + e.split(":")[4:]) for e in E]
-        yield "\t".join(head + [ns, rs, ";".join(H[:-1]), ";".join(E2), ps])
+        E2 = [":".join(e.split(":")[:3] + [_drop(e.split(":")[3], k)] + e.split(":")[4:]) for e in E]
+        G2 = [g if not g.startswith("I") else "I" + ":".join([g[1:].split(":")[0], _drop(g[1:].split(":")[1], k)] + g[1:].split(":")[2:]) for g in G]
+        yield emit(G=G2, H=H[:-1], E=E2)
+    # forget the initialised globals
+    if any(g.startswith("I") for g in G):
+        E2 = [_map_opts(e, 6, lambda o: None if o.startswith("i") else o) for e in E]
+        yield emit(G=[g for g in G if not g.startswith("I")], E=E2)
     # forget the statics
-    if ns != "0":
-        H2 = [":".join(h.split(":")[:3] + [""]) for h in H]
-        E2 = [":".join(e.split(":")[:4] + ["", e.split(":")[5]]) for e in E]
-        yield "\t".join(head + ["0", rs, ";".join(H2), ";".join(E2), ps])
+    if G[0] != "0":
+        H2 = [":".join(h.split(":")[:3] + [""] + h.split(":")[4:]) for h in H]
+        E2 = [":".join(e.split(":")[:4] + [""] + e.split(":")[5:]) for e in E]
+        G2 = ["0"] + [g if not g.startswith("I") else ":".join(g.split(":")[:3] + [""]) for g in G[1:]]
+        yield emit(G=G2, H=H2, E=E2)
+    # plain layout
+    if "L1" in G:
+        yield emit(G=[g for g in G if g != "L1"])
+    # strip options / statement shapes of one item at a time
+    for i, r in enumerate(R):
+        if len(r.split(":")) > 7:
+            yield emit(R=R[:i] + [":".join(r.split(":")[:7])] + R[i + 1:])
+    for i, h in enumerate(H):
+        p = h.split(":")
+        plain = ":".join([p[0], _plain(p[1]), p[2], p[3]])
+        if plain != h:
+            yield emit(H=H[:i] + [plain] + H[i + 1:])
+    for i, e in enumerate(E):
+        p = e.split(":")
+        plain = ":".join([p[0], p[1], _plain(p[2])] + p[3:6])
+        if plain != e and not any(g.startswith("I") for g in G):
+            yield emit(E=E[:i] + [plain] + E[i + 1:])
+    for i, pp in enumerate(P):
+        if len(pp.split(":")) > 3:
+            yield emit(P=P[:i] + [":".join(pp.split(":")[:3])] + P[i + 1:])
 
 
 KINDS = ["Buffer", "RWBuffer", "ByteAddressBuffer", "RWByteAddressBuffer", "BufferAddress", "RWBufferAddress",
@@ -136,7 +218,7 @@ SPEC = {
         "descriptor_kind_count", "meta_bijective_hlsl", "meta_bijective_msl", "meta_bijective_msl_exact", "msl_sort_keeps_sorted",
         "excluded_declarations", "used_sound_complete_partial", "used_flag",
         "hlsl_params_of_targets", "hlsl_annotations_total", "annot_iff_entry", "annotations_match_metadata_hlsl",
-        "entry_named_and_defined"]],
+        "entry_named_and_defined", "thread_group_size_ambiguous_witness"]],
     "harness": "c05",
     "nontrivial": nontrivial,
     "finding_key": finding_key,
